@@ -249,7 +249,7 @@ class CodedInputStream {
       }
     } else {
       if (buffer_ptr_ == buffer_end_ptr_) {
-        FillBuffer();
+        FillBuffer(true);
         if (at_eof_ && buffer_ptr_ == buffer_end_ptr_) {
           return;
         }
@@ -330,7 +330,7 @@ class CodedInputStream {
     return static_cast<int64_t>((n >> 1) ^ (~(n & 1) + 1));
   }
 
-  size_t FillBuffer() {
+  size_t FillBuffer(bool allow_empty = false) {
     if (at_eof_) {
       throw EndOfStreamException();
     }
@@ -340,6 +340,10 @@ class CodedInputStream {
     auto bytes_read = stream_.gcount();
     buffer_ptr_ = buffer_.data();
     buffer_end_ptr_ = buffer_ptr_ + bytes_read;
+    if (bytes_read == 0 && !allow_empty) {
+      // the previous read ended exactly at the end of the stream: callers are about to consume data
+      throw EndOfStreamException();
+    }
     return bytes_read;
   }
 
